@@ -254,8 +254,8 @@ fn eval_dna(dna_bytes: &[u8], ctx: &mut Ctx) -> Result<(), (Failure, Value)> {
 
 fn worker(ctx: &mut Ctx) {
     let cases = match ctx.cfg.tier {
-        Tier::Quick => 2_500u64,
-        Tier::Thorough => 40_000u64,
+        Tier::Quick => 9_000u64,
+        Tier::Thorough => 150_000u64,
     };
     let run = DnaRun {
         cases: ctx.cfg.share(cases),
